@@ -9,12 +9,11 @@ open Refine
 abbrev cfgOf (voters : List Id) : Spec.Cfg := Spec.jointCfg voters []
 
 /-- the part of the invariant that concerns the immutable configuration and the features that are switched off
-(no PreVote / CheckQuorum / leadership transfer / ReadIndex; static membership `voters`, no learners) -/
+(no PreVote / leadership transfer / ReadIndex; CheckQuorum is free; static membership `voters`, no learners) -/
 structure RaftStatic (voters : List Id) (n : Nat) (r : Raft) : Prop where
   id : r.cfg.id = n
   idnz : n ≠ 0
   pv : r.cfg.preVote = false
-  cq : r.cfg.checkQuorum = false
   xfer : r.leadTransferee = 0
   pri : r.pendingReadIndexMessages = []
   ro : r.readOnly.unconfirmed = []
@@ -32,7 +31,7 @@ theorem RaftStatic.congr {voters : List Id} {n : Nat} {r r' : Raft} (h : RaftSta
     (h3 : r'.pendingReadIndexMessages = r.pendingReadIndexMessages) (h4 : r'.readOnly.unconfirmed = r.readOnly.unconfirmed)
     (h5 : r'.trk.cfg = r.trk.cfg) (h6 : r'.trk.progress = r.trk.progress) : RaftStatic voters n r' := by
   have hg : ∀ v, r'.trk.getProgress v = r.trk.getProgress v := fun v => by unfold Tracker.getProgress; rw [h6]
-  exact ⟨by rw [h1]; exact h.id, h.idnz, by rw [h1]; exact h.pv, by rw [h1]; exact h.cq, h2.trans h.xfer,
+  exact ⟨by rw [h1]; exact h.id, h.idnz, by rw [h1]; exact h.pv, h2.trans h.xfer,
     h3.trans h.pri, h4.trans h.ro, by rw [h5]; exact h.tvoters, by rw [h5]; exact h.tout, by rw [h5]; exact h.tauto,
     fun v => by rw [hg]; exact h.prog v, fun v pr hp => h.nolearn v pr (by rw [← hg]; exact hp), h.self⟩
 
